@@ -2,7 +2,7 @@ use convert_case::{Case, Casing};
 use darling::{Error, FromField, FromMeta, FromVariant, Result};
 use proc_macro2::{Ident, TokenStream};
 use quote::quote;
-use syn::{Expr, Field, Fields, FieldsNamed, FieldsUnnamed, Variant};
+use syn::{ext::IdentExt, Expr, Field, Fields, FieldsNamed, FieldsUnnamed, Variant};
 
 use super::args::{ArgType, TypedArg};
 
@@ -299,6 +299,7 @@ impl Command {
 
         let name = attrs.name.unwrap_or_else(|| {
             variant_ident
+                .unraw()
                 .to_string()
                 .from_case(Case::Camel)
                 .to_case(Case::Kebab)
